@@ -101,15 +101,15 @@ def key_of(case):
 
 def lib_encrypt(pt, key, kind, wrapper):
     if wrapper:
-        return getattr(_mc, "encrypt_" + kind)(pt, key)
-    return _mc.encrypt(pt, key, getattr(MediaCipher, {"image": "INFO_IMAGE", "audio": "INFO_AUDIO", "video": "INFO_VIDEO",
+        return getattr(MediaCipher(), "encrypt_" + kind)(pt, key)
+    return MediaCipher().encrypt(pt, key, getattr(MediaCipher, {"image": "INFO_IMAGE", "audio": "INFO_AUDIO", "video": "INFO_VIDEO",
                                                       "document": "INFO_DOCUM"}[kind]))
 
 
 def lib_decrypt(blob, key, kind, wrapper=True):
     if wrapper:
-        return getattr(_mc, "decrypt_" + kind)(blob, key)
-    return _mc.decrypt(blob, key, getattr(MediaCipher, {"image": "INFO_IMAGE", "audio": "INFO_AUDIO", "video": "INFO_VIDEO",
+        return getattr(MediaCipher(), "decrypt_" + kind)(blob, key)
+    return MediaCipher().decrypt(blob, key, getattr(MediaCipher, {"image": "INFO_IMAGE", "audio": "INFO_AUDIO", "video": "INFO_VIDEO",
                                                         "document": "INFO_DOCUM"}[kind]))
 
 
@@ -173,10 +173,14 @@ def _shared(case, out):
     arrives): every call must behave as if it ran alone.  The deterministic scheduler runs the calls as tasks that can be
     preempted at every line and call inside mediacipher.py; each result is compared with the independent implementation."""
     from ..kit import sched as SK
-    mc = MediaCipher()
+    import yowsup.layers.protocol_media.mediacipher as MCM
+    saved_threading = getattr(MCM, "threading", None)
+    if saved_threading is not None:
+        MCM.threading = SK.ThreadingShim()      # whatever locks the cipher uses become scheduler-aware (a real lock would stall the scheduler)
     s = SK.Scheduler(case.get("choices", []), ("protocol_media/mediacipher.py",), trace_lines=True, preempt=case.get("preempt"),
                      max_steps=20000)
     SK.SCHED = s
+    mc = MediaCipher()
     tasks = []
     try:
         def mk(ops):
@@ -231,6 +235,9 @@ def _shared(case, out):
     finally:
         s.kill()
         SK.SCHED = None
+        SK.ALL_LOCKS[:] = []
+        if saved_threading is not None:
+            MCM.threading = saved_threading
 
 
 def _optimised(case, out):
@@ -258,11 +265,78 @@ def _optimised(case, out):
     return out
 
 
+def _reuse(case, out):
+    """one cipher object used for a whole session (the way the media layer's worker keeps one): calls that are rejected - tampered,
+    truncated, wrong key, wrong kind - leave it usable; every later call returns, with the right answer.  A call that does not
+    return is run on a helper thread and given ten seconds (a thousand times what it needs) before it counts as stuck."""
+    import threading
+    mc = MediaCipher()
+    out.label("one_cipher_object_reused")
+    n_rejected = 0
+    for k, step in enumerate(case["steps"]):
+        key = hashlib.sha256(b"reuse-%d" % step.get("keyseed", 0)).digest()
+        kind = KINDS[step.get("kind", 0) % 4]
+        pt = plaintext_of(step.get("n", 20), step.get("seed", 3))
+        blob = ref_encrypt(pt, key, kind)
+        what = step["what"]
+        if what == "tampered":
+            t = bytearray(blob)
+            t[step.get("pos", 0) % len(t)] ^= 1 + step.get("mask", 0) % 255
+            arg, dkey, dkind = bytes(t), key, kind
+        elif what == "truncated":
+            arg, dkey, dkind = blob[:max(0, len(blob) - 1 - step.get("pos", 0) % len(blob))], key, kind
+        elif what == "wrong_key":
+            arg, dkey, dkind = blob, hashlib.sha256(key).digest(), kind
+        elif what == "wrong_kind":
+            arg, dkey, dkind = blob, key, KINDS[(KINDS.index(kind) + 1) % 4]
+        else:
+            arg, dkey, dkind = blob, key, kind
+        box = {}
+
+        def call(_arg=arg, _k=dkey, _kind=dkind, _what=what, _pt=pt):
+            try:
+                if _what == "encrypt":
+                    box["r"] = ("ok", bytes(mc.encrypt(_pt, _k, getattr(MediaCipher, INFO_ATTR[_kind]))))
+                else:
+                    box["r"] = ("ok", bytes(mc.decrypt(_arg, _k, getattr(MediaCipher, INFO_ATTR[_kind]))))
+            except Exception as e:
+                box["r"] = ("raised", type(e).__name__)
+        th = threading.Thread(target=call, daemon=True)
+        th.start()
+        th.join(10)
+        if "r" not in box:
+            out.fail("roundtrip", "reuse:call_does_not_return_after_%d_rejected_call%s" % (n_rejected, "" if n_rejected == 1 else "s"),
+                     {"step": k, "what": what, "history": [s["what"] for s in case["steps"][:k + 1]]})
+            return out
+        status, val = box["r"]
+        if what in ("tampered", "truncated", "wrong_key", "wrong_kind"):
+            if status == "ok":
+                if what == "wrong_key" or what == "wrong_kind":
+                    # (1 in 2^80: not expected)
+                    pass
+                out.fail("integrity", "reuse:%s_blob_accepted" % what, {"step": k})
+                return out
+            n_rejected += 1
+        elif what == "decrypt":
+            if status != "ok" or val != pt:
+                out.fail("roundtrip", "reuse:valid_blob_%s_after_%d_rejected_calls" % ("rejected" if status != "ok" else "decrypts_differently", n_rejected),
+                         {"step": k, "error": val if status != "ok" else None})
+                return out
+        else:
+            if status != "ok" or val != blob:
+                out.fail("layout", "reuse:encrypt_%s_after_%d_rejected_calls" % ("raises" if status != "ok" else "differs_from_reference", n_rejected), {"step": k})
+                return out
+    out.info = {"nt": n_rejected >= 1}
+    return out
+
+
 def run_case(case):
     out = Outcome()
     sub = case["sub"]
     if sub == "shared":
         return _shared(case, out)
+    if sub == "reuse":
+        return _reuse(case, out)
     if sub == "optimised":
         return _optimised(case, out)
     key = key_of(case)
@@ -368,6 +442,14 @@ def _enum_rt():
                     yield {"sub": "rt", "n": n, "kind": kind, "keyseed": keyseed, "seed": 3 if n % 3 else 1, "wrapper": wrapper}
 
 
+def _enum_reuse():
+    for bad in ("tampered", "truncated", "wrong_key", "wrong_kind"):
+        for kind in range(4):
+            yield {"sub": "reuse", "steps": [{"what": "decrypt", "kind": kind, "n": 20}, {"what": bad, "kind": kind, "n": 33, "pos": 5},
+                                             {"what": "decrypt", "kind": kind, "n": 16}, {"what": bad, "kind": (kind + 1) % 4, "n": 1, "pos": 0},
+                                             {"what": "encrypt", "kind": kind, "n": 40}, {"what": "decrypt", "kind": kind, "n": 0}]}
+
+
 def _enum_nested():
     for n in (0, 1, 16, 33):
         for kind in range(4):
@@ -429,10 +511,15 @@ def plan(tier):
     return {
         "shards": 16,
         "enumerations": [("lengths_0_64", _enum_rt), ("tamper_positions", _enum_tamper), ("shared_one_preemption", _enum_shared),
-                         ("optimised_interpreter", _enum_optimised), ("content_is_an_encrypted_file", _enum_nested)],
+                         ("optimised_interpreter", _enum_optimised), ("content_is_an_encrypted_file", _enum_nested),
+                         ("one_cipher_object_reused", _enum_reuse)],
         "exhaustive": ["lengths_0_64", "tamper_positions", "shared_one_preemption"],
         "strategies": [("roundtrip", rt, 400 if quick else 6000), ("tamper", tam, 600 if quick else 10000),
                        ("shared_object", shared, 300 if quick else 4000),
+                       ("one_cipher_object_reused", st.lists(st.fixed_dictionaries({
+                           "what": st.sampled_from(["decrypt", "encrypt", "tampered", "truncated", "wrong_key", "wrong_kind"]), "kind": st.integers(0, 3),
+                           "n": st.sampled_from([0, 1, 16, 20, 33, 300]), "seed": st.integers(0, 9), "keyseed": st.integers(0, 3), "pos": st.integers(0, 400),
+                           "mask": st.integers(0, 254)}), min_size=2, max_size=8).map(lambda steps: {"sub": "reuse", "steps": steps}), 60 if quick else 1500),
                        ("optimised_interpreter", st.lists(st.one_of(tam, tam, rt), min_size=4, max_size=16).map(lambda cs: {"sub": "optimised", "cases": cs}),
                         2 if quick else 40)],
         "shrink": "hypothesis",
@@ -451,3 +538,5 @@ if __name__ == "__main__":
     from ..kit import env as envkit
     envkit.cleanup()
     os._exit(0)
+
+RULE += (' Also: the same tamper / round-trip cases in a child interpreter started with -O; content that is itself an encrypted file (same / other key and kind); one cipher object reused after rejected calls (a call that does not return within 10 s counts as stuck).')
